@@ -263,7 +263,25 @@ fn region_level(ctx: &mut Ctx, arena: &Arena, region: &[u8], elf_names: bool, me
                             lists[slot] = b.recs;
                         }
                         23 => {
-                            // tag walk
+                            // tag walk; first the fold-based adapters (an iterator type may override them)
+                            match b.ctx.call("tags.count", || bi.tags().count()) {
+                                Out::Val(n) => b.recs.push(Rec { name: "tags.count", val: Val::U(n as u64) }),
+                                Out::Panic => b.recs.push(Rec { name: "tags.count", val: Val::Panic }),
+                            }
+                            match b.ctx.call("tags.last", || bi.tags().last()) {
+                                Out::Val(Some(t)) => {
+                                    let off = rel(t, p);
+                                    let sov = std::mem::size_of_val(t);
+                                    b.recs.push(Rec { name: "tags.last", val: Val::S { off, len: sov, hash: 0 } });
+                                    if off < 8 || off as usize + sov > total {
+                                        b.recs.push(Rec { name: "tags.outside", val: Val::U(off as u64) });
+                                    } else {
+                                        b.s("tags.last.payload", || Ok(t.payload()));
+                                    }
+                                }
+                                Out::Val(None) => b.recs.push(Rec { name: "tags.last", val: Val::E(0) }),
+                                Out::Panic => b.recs.push(Rec { name: "tags.last", val: Val::Panic }),
+                            }
                             if let Out::Val(mut it) = b.ctx.call("tags", || bi.tags()) {
                                 for _ in 0..(total / 8 + 2) {
                                     match b.ctx.call("tags.next", || it.next()) {
@@ -426,7 +444,7 @@ fn run(ctx: &mut Ctx) {
         });
     }
     // ---------------- region level
-    ctx.bound("region_level", "regions [deviating tag][conformant neighbour][end] and [neighbour][deviating tag][end] for every budget-1 tag image above (size alphabet thinned to the values around each 8-byte boundary in the quick tier) and three neighbours (16, 12 and 316 bytes); total-size words cutting the last tag with an end tag written at the cut; flush-right and flush-left, fills A/B; program = load, Debug, all 22 getters with their batteries, tag walk, module walk, deprecated ELF getter, forwards and in reverse order");
+    ctx.bound("region_level", "regions [deviating tag][conformant neighbour][end] and [neighbour][deviating tag][end] for every budget-1 tag image above (size alphabet thinned to the values around each 8-byte boundary in the quick tier) and three neighbours (16, 12 and 316 bytes); total-size words cutting the last tag (alone, and with a conformant tag in front of it) with an end tag written at the cut; flush-right and flush-left, fills A/B; program = load, Debug, all 22 getters with their batteries, tag walk, module walk, deprecated ELF getter, forwards and in reverse order");
     let neighbours = [bi::sample(bi::MEMINFO, 5, 0), bi::sample(bi::CMDLINE, 5, 3), bi::sample(bi::SMBIOS, 5, 300)];
     for base in &all {
         enumerate(1, |ch| {
@@ -462,8 +480,10 @@ fn run(ctx: &mut Ctx) {
         if base.variant != 0 {
             continue;
         }
-        let full = bi::region(&[base.img.clone(), bi::end_tag()], &bi::marker_pad);
-        let mut t = 16;
+      for with_front in [false, true] {
+        // (second pass: a conformant tag in front, so that the cut tag is not the first one)
+        let full = if with_front { bi::region(&[bi::sample(bi::MEMINFO, 5, 0), base.img.clone(), bi::end_tag()], &bi::marker_pad) } else { bi::region(&[base.img.clone(), bi::end_tag()], &bi::marker_pad) };
+        let mut t = if with_front { 32 } else { 16 };
         while t <= full.len() + 16 {
             let mut region = full.clone();
             region.resize(t.max(full.len()), 0xB9);
@@ -482,6 +502,7 @@ fn run(ctx: &mut Ctx) {
             );
             t += 8;
         }
+      }
     }
     // ---------------- deep structures: work (and stack use) proportional to the number of elements
     ctx.bound("deep_structures", "regions of 20000 header-only custom tags, of 5000 module tags, and an ELF-sections tag with 20000 unused entries followed by two used ones (engines run with a 256 KiB stack: recursion per element overflows it); same program");
